@@ -1,6 +1,6 @@
 """C20 RISC-V 64 JIT output is equivalent to the interpreter."""
 import astq
-from rules import genreset, jit, jitcross, rv64, rvhsem, rtpreserve, rvdsread, aeshw, rvfp, cfrcross
+from rules import genreset, jit, jitcross, rv64, rvhsem, rtpreserve, rvdsread, aeshw, rvfp, cfrcross, readreg
 
 LEVEL = 'other'
 TECHNIQUE = ('cross-target parse (clang --target=riscv64) of the back-end that this host never compiles + sibling agreement with the interpreter on resolved-AST feature vectors, known-bits evaluation of emitted constants and of branch-offset bit scatter against the ISA encoding tables, finite enumeration of the literal-pool index, max-path code-size bound against the assembled template'
@@ -37,6 +37,9 @@ EXPLANATION += ' RV-CFR-BITS.'
 CLAIM += (' CFROUND is decided bit by bit for all 64 rotation counts, v1 and v2: the table index is 4 * (source bits imm mod 64 and the next), the word loaded from the literal pool goes to frm, the four table words are the RISC-V encodings of nearest / down / up / zero, the v2 branch tests bits 2-5 and skips exactly the rest of the handler (RV-CFR-BITS).')
 
 
+CLAIM += (' Every instruction word the A64, RV64 and vector-RV64 program generators build from the read-register members of the program configuration is, evaluated and decoded, an XOR of the registers of (readReg0, readReg1) - 64-bit - or of (readReg2, readReg3), and each back-end builds both (JIT-READREG; specification 4.6.2 steps 1 and 5).')
+EXPLANATION += ' JIT-READREG.'
+
 def run(ctx, R):
     FI = astq.Facts(ctx, 'K0')
     R.saw(config='K3')
@@ -72,3 +75,4 @@ def run(ctx, R):
     rvdsread.rule_dsitem(ctx, R)
     rvfp.rule_fp_hsem(ctx, R)
     cfrcross.rule_rv(ctx, R)
+    readreg.rule_readreg(ctx, R)
